@@ -79,8 +79,8 @@ CHECKS["C11"] = dict(
    ref="DESIGN.md §6 C11")
 CHECKS["C12"] = dict(
    category="fault_enumeration",
-   text="RuleSpace.tla defines the rule space of the five families (cross product of every enum-valued field with boundary numerics incl. negative, NaN, zero durations, empty names, Custom(_) strategies, a related resource that exists / never existed), the validity predicates, and what a case must look like; TLC enumerates the space (sampled in the quick tier, complete in the thorough tier) x every loading entry point on a fresh and on a populated resource; each case runs in worker processes against the real managers with a logger that formats every record, followed by nine entry shapes (no / short / long argument lists, attachments, batch 0 / 1 / 10^6, inbound, empty resource name) and a health probe of every manager; TLC validates every case: no panic anywhere, accepted rules reported active and enforceable, rejected ones refused or ignored, nothing poisoned afterwards",
-   note="'does not hang' is decided for virtual time; a valid rule of a Custom(_) strategy without registered generator may or may not be reported; the quick tier samples 400 rules per large family",
+   text="RuleSpace.tla defines the rule space of the five families (cross product of every enum-valued field with boundary numerics incl. negative, NaN, zero durations, empty names, Custom(_) strategies, a related resource that exists / never existed), the validity predicates, and what a case must look like; TLC enumerates the space (seeded samples of the two large families - 400 rules each in the quick tier, 12 000 in the thorough tier - and the complete circuit-breaker (thorough), isolation and system spaces) x every loading entry point on a fresh and on a populated resource; each case runs in worker processes against the real managers with a logger that formats every record, followed by nine entry shapes (no / short / long argument lists, attachments, batch 0 / 1 / 10^6, inbound, empty resource name) and a health probe of every manager; TLC validates every case: no panic anywhere, accepted rules reported active and enforceable, rejected ones refused or ignored, nothing poisoned afterwards",
+   note="'does not hang' is decided for virtual time; a valid rule of a Custom(_) strategy without registered generator may or may not be reported; the flow space has 2.6 million rules and is always sampled",
    technique="TLA+ spec RuleSpace.tla (rule space, validity predicates, case predicate); TLC enumeration replayed as one implementation test per case; TLC validation of every observed case",
    ref="DESIGN.md §6 C12")
 CHECKS["C19"] = dict(
